@@ -3,11 +3,19 @@
 case = dict(A, P, N, wtt_us, stop_us, ends, horizon_us, ack_type, msgs=[dict(at, kind, style, dur, out,
             ack (none | sync | async | future | task | awaitobj | gencoro: what the ack callable is / returns), ack_us (the
             acknowledgement completes that much later), hook_aw = dict(where: pre | post | post_save | on_error, style, us) (a
-            middleware hook that is a plain function returning a non-coroutine awaitable), pre_fail, post_fail, save_fail, psave_fail, onerr_fail, fail_exc (error | cancel | base), fail_after_us, tlabel_us, cleanup_us, payload (byte values of a malformed message))])       (all instants / durations in integer microseconds,
+            middleware hook that is a plain function returning a non-coroutine awaitable),
+            wire = how the (valid) message is written on the wire, mw = per extra middleware what each of its hooks does for
+            this message (both: see recv_props.decorate_wire / decorate_mw), pre_fail, post_fail, save_fail, psave_fail, onerr_fail, fail_exc (error | cancel | base), fail_after_us, tlabel_us, cleanup_us, payload (byte values of a malformed message))])       (all instants / durations in integer microseconds,
             dur = -1: never ends)
-observation = dict(raw=[[t_us, tag, a, b], ...], lts=[Coq event literals], cut, returned)"""
+       sc["fmt"]: formatter / serializer of the broker; sc["mws"]: extra recording middlewares
+observation = dict(raw=[[t_us, tag, a, b], ...], lts=[Coq event literals], cut, returned, wire={i: printable bytes})"""
 import asyncio
+import base64
+import json
+import pickle
+import random
 import types
+from typing import Any
 
 import shims
 import vloop
@@ -18,7 +26,10 @@ from taskiq.abc.broker import AckableMessage, AsyncBroker
 from taskiq.abc.result_backend import AsyncResultBackend
 from taskiq.acks import AcknowledgeType
 from taskiq.exceptions import NoResultError
+from taskiq.formatters.json_formatter import JSONFormatter
+from taskiq.kicker import AsyncKicker
 from taskiq.message import TaskiqMessage
+from taskiq.serializers.pickle import PickleSerializer
 from taskiq.receiver import Receiver
 
 REAL_ASYNCIO = rmod.asyncio
@@ -28,9 +39,43 @@ class Boom(BaseException):
     pass
 
 
+# taskiq.labels.LabelType as every released client writes it (the harness' own table: the wire form of a message that is
+# not sent through the real kicker is built without asking the code under test)
+LT = dict(any=1, int=2, str=3, float=4, bool=5, bytes=6)
+GHOST_VALUE = {1: None, 2: 1, 3: "s", 4: 1.5, 5: True, 6: b"x"}
+
+
+def label_py(tn, v):
+    return bytes.fromhex(v) if tn == "bytes" else v
+
+
+def label_typed(tn, py):
+    """what a client writes for a label of a declared type"""
+    return base64.b64encode(py).decode() if tn == "bytes" else str(py)
+
+
+def label_plain(tn, py):
+    return base64.b64encode(py).decode() if tn == "bytes" else py
+
+
 def run_case(sc, opts):
     ids = {}
-    box = {}
+    box = {"kicked": []}
+    by_tid = {}         # task id -> indices of the messages that carry it
+
+    def idx(tid):
+        """which scripted message a hook / the backend was called for: by task id; when several messages share one id, by
+        the callback task the call runs in (tagged by the shims; tasks it creates inherit the tag)"""
+        l = by_tid.get(tid) or []
+        if len(l) == 1:
+            return l[0]
+        try:
+            v = getattr(asyncio.current_task(), "_vmsg", None)
+        except RuntimeError:
+            v = None
+        if v is None:
+            raise AssertionError("harness: cannot tell which message task id %r belongs to" % (tid,))
+        return v
 
     def ident(m):
         d = m.data if isinstance(m, AckableMessage) else m
@@ -43,7 +88,7 @@ def run_case(sc, opts):
 
         class B(AsyncBroker):
             async def kick(self, m):
-                pass
+                box["kicked"].append(m)
 
             async def listen(self):
                 for m in box["msgs"]:
@@ -125,7 +170,7 @@ def run_case(sc, opts):
 
         class RB(AsyncResultBackend):
             async def set_result(self, tid, r):
-                i = int(tid)
+                i = idx(tid)
                 log.add("save", i)
                 if sc["msgs"][i].get("save_fail"):
                     await afail(i, "backend down")
@@ -138,14 +183,14 @@ def run_case(sc, opts):
 
         class Hooks(TaskiqMiddleware):
             def pre_execute(self, m):
-                i = int(m.task_id)
+                i = idx(m.task_id)
                 log.add("hook.pre", i)
                 if sc["msgs"][i].get("pre_fail"):
                     fail(i, "hook")
                 return m
 
             async def post_execute(self, m, r):
-                i = int(m.task_id)
+                i = idx(m.task_id)
                 log.add("hook.post", i)
                 if sc["msgs"][i].get("post_fail"):
                     await afail(i, "hook")
@@ -154,13 +199,13 @@ def run_case(sc, opts):
             """the two other hooks of the processing path; only installed for scenarios that make one of them fail"""
 
             async def post_save(self, m, r):
-                i = int(m.task_id)
+                i = idx(m.task_id)
                 log.add("hook.post_save", i)
                 if sc["msgs"][i].get("psave_fail"):
                     await afail(i, "hook")
 
             def on_error(self, m, r, exc):
-                i = int(m.task_id)
+                i = idx(m.task_id)
                 log.add("hook.on_error", i)
                 if sc["msgs"][i].get("onerr_fail"):
                     fail(i, "hook")
@@ -170,10 +215,10 @@ def run_case(sc, opts):
             messages that ask for it (hook_aw), nothing otherwise; only installed for scenarios that use it"""
 
             def _h(self, where, m, result):
-                h = sc["msgs"][int(m.task_id)].get("hook_aw")
+                h = sc["msgs"][idx(m.task_id)].get("hook_aw")
                 if not h or h["where"] != where:
                     return result
-                i = int(m.task_id)
+                i = idx(m.task_id)
                 log.add("hook.aw", i, where)
                 return awaitable(h["style"], h.get("us", 0), lambda: log.add("hook.aw.end", i, where), result)
 
@@ -189,13 +234,164 @@ def run_case(sc, opts):
             def on_error(self, m, r, exc):
                 return self._h("on_error", m, None)
 
+        class Stamp(TaskiqMiddleware):
+            """client side: a pre_send hook (it runs after the kicker has computed labels_types) that adds labels - tracing /
+            correlation / tenant headers - and removes some; only installed for scenarios that send through the kicker"""
+
+            def pre_send(self, message):
+                w = box["sending"]
+
+                def do():
+                    for k, v in w["stamps"]:
+                        message.labels[k] = v
+                    for k, _ in w["ghost"]:
+                        message.labels.pop(k, None)
+                    return message
+
+                if w.get("pre_send") == "async":
+                    async def later():
+                        return do()
+
+                    return later()
+                return do()
+
+        def hook_exc(kind):
+            return asyncio.CancelledError() if kind == "cancel" else Boom() if kind == "base" else RuntimeError("hook")
+
+        async def hook_work(i, tag, s, ret, log_begin):
+            """one hook invocation as a coroutine: (fails at once) | suspends `us` | (fails) | returns; `hook.end` when it
+            has really finished - whoever awaits it, however it ends"""
+            if log_begin:
+                log.add("hook.begin", i, tag)
+            try:
+                fk, us = s.get("fail"), s.get("us", 0)
+                if fk and s.get("fail_at") == "begin":
+                    raise hook_exc(fk)
+                if us:
+                    if fk == "cancel":
+                        fut = loop.create_future()      # a shared future that somebody else cancels
+                        loop.call_later(us / 1e6, fut.cancel)
+                        await fut
+                    else:
+                        await asyncio.sleep(us / 1e6)
+                if fk:
+                    raise hook_exc(fk)
+                return ret
+            finally:
+                log.add("hook.end", i, tag)
+
+        def hook_call(i, tag, s, ret):
+            """one hook invocation of a middleware whose hooks are plain functions: returns / raises at once, or hands back
+            an awaitable (coroutine object, Future resolved by a timer, Task, object with __await__, generator-based
+            coroutine) that completes - or fails - later"""
+            log.add("hook.begin", i, tag)
+            style, fk, us = s.get("style", "sync"), s.get("fail"), s.get("us", 0)
+            if style == "sync" or (fk and s.get("fail_at") == "begin" and style != "coro"):
+                try:
+                    if fk:
+                        raise hook_exc(fk)
+                    return ret
+                finally:
+                    log.add("hook.end", i, tag)
+            if style == "future":
+                fut = loop.create_future()
+                ended = []
+
+                def end(*_):
+                    if not ended:
+                        ended.append(1)
+                        log.add("hook.end", i, tag)
+
+                def fin():
+                    if fut.done():
+                        return
+                    end()
+                    if fk == "cancel":
+                        fut.cancel()
+                    elif fk:
+                        fut.set_exception(hook_exc(fk))
+                    else:
+                        fut.set_result(ret)
+
+                fut.add_done_callback(end)          # cancelled from outside before the timer
+                if us:
+                    loop.call_later(us / 1e6, fin)
+                else:
+                    fin()
+                return fut
+            coro = hook_work(i, tag, s, ret, False)
+            if style == "coro":
+                return coro
+            if style == "task":
+                return asyncio.ensure_future(coro)
+            if style == "awaitobj":
+                class Later:
+                    def __await__(self):
+                        return coro.__await__()
+
+                return Later()
+            if style == "gencoro":
+                @types.coroutine
+                def gen():
+                    return (yield from coro.__await__())
+
+                return gen()
+            raise AssertionError("scenario: unknown hook style %r" % (style,))
+
+        def make_mw(k, decl, hooks):
+            """recording middleware number k: overrides exactly `hooks`, as `async def` or as plain functions; what an
+            invocation does is the message's own spec m["mw"][k][hook] (nothing: returns at once)"""
+            def spec(m, where):
+                i = idx(m.task_id)
+                per = sc["msgs"][i].get("mw") or []
+                return i, "%d:%s" % (k, where), (per[k].get(where) if k < len(per) else None) or {}
+
+            if decl == "async":
+                async def pre_execute(self, m):
+                    return await hook_work(*spec(m, "pre"), m, True)
+
+                async def post_execute(self, m, r):
+                    return await hook_work(*spec(m, "post"), None, True)
+
+                async def post_save(self, m, r):
+                    return await hook_work(*spec(m, "post_save"), None, True)
+
+                async def on_error(self, m, r, exc):
+                    return await hook_work(*spec(m, "on_error"), None, True)
+            else:
+                def pre_execute(self, m):
+                    return hook_call(*spec(m, "pre"), m)
+
+                def post_execute(self, m, r):
+                    return hook_call(*spec(m, "post"), None)
+
+                def post_save(self, m, r):
+                    return hook_call(*spec(m, "post_save"), None)
+
+                def on_error(self, m, r, exc):
+                    return hook_call(*spec(m, "on_error"), None)
+            fns = dict(pre=("pre_execute", pre_execute), post=("post_execute", post_execute),
+                       post_save=("post_save", post_save), on_error=("on_error", on_error))
+            return type("Recording%d" % k, (TaskiqMiddleware,), dict(fns[h] for h in hooks))()
+
         br = B()
+        fmt = sc.get("fmt", "proxy-json")
+        if fmt == "json":
+            br.with_formatter(JSONFormatter())
+        elif fmt == "proxy-pickle":
+            br.with_serializer(PickleSerializer())
+        elif fmt != "proxy-json":
+            raise AssertionError("scenario: unknown format %r" % (fmt,))
         br.result_backend = RB()
         br.add_middlewares(Hooks())
         if any(m.get("psave_fail") or m.get("onerr_fail") for m in sc["msgs"]):
             br.add_middlewares(Hooks2())
         if any(m.get("hook_aw") for m in sc["msgs"]):
             br.add_middlewares(Hooks3())
+        for k, mw in enumerate(sc.get("mws") or []):
+            br.add_middlewares(make_mw(k, mw["decl"], mw["hooks"]))
+        if any((m.get("wire") or {}).get("via") == "kicker" for m in sc["msgs"]):
+            br.add_middlewares(Stamp())
 
         def finish(i, out):
             if out == "raise":
@@ -207,7 +403,7 @@ def run_case(sc, opts):
             return i
 
         @br.task(task_name="ta")
-        async def ta(i: int, dur: int, out: str):
+        async def ta(i: int, dur: int, out: str, extra: Any = None):
             log.add("body.in", i)
             try:
                 try:
@@ -227,14 +423,68 @@ def run_case(sc, opts):
                 log.add("body.out", i)       # outermost finally: the body has REALLY ended
 
         @br.task(task_name="ts")
-        def ts(i: int, dur: int, out: str):
+        def ts(i: int, dur: int, out: str, extra: Any = None):
             log.add("body.in", i)
             try:
                 return finish(i, out)
             finally:
                 log.add("body.out", i)
 
+        async def on_the_wire(i, m, name, w):
+            """the bytes of one VALID message, written as the scenario says (recv_props.decorate_wire)"""
+            tid = w["tid"]
+            user = [(k, tn, label_py(tn, v), typed) for k, tn, v, typed in w["labels"]]
+            if m.get("tlabel_us") is not None:
+                user.insert(0, ("timeout", "float", m["tlabel_us"] / 1e6, bool(w.get("timeout_typed"))))
+            pos = [i, m["dur"], m["out"]]
+            n = dict(pos=3, kw=0, mixed=1)[w.get("argform", "pos")]
+            args, kwargs = pos[:n], dict(list(zip(("i", "dur", "out"), pos))[n:])
+            if "extra" in w:
+                kwargs["extra"] = w["extra"]
+            if w["via"] == "kicker":
+                task = {"ta": ta, "ts": ts}.get(name)
+                kicker = task.kicker() if task is not None else AsyncKicker(task_name=name, broker=br, labels={})
+                labels = {k: py for k, _, py, _ in user}
+                labels.update({k: GHOST_VALUE[t] for k, t in w["ghost"]})     # typed by the kicker, removed by the middleware
+                box["sending"] = w
+                n0 = len(box["kicked"])
+                await kicker.with_task_id(tid).with_labels(**labels).kiq(*args, **kwargs)
+                assert len(box["kicked"]) == n0 + 1, "harness: kiq did not hand exactly one message to broker.kick"
+                return box["kicked"][-1].message
+            labels, types_ = {}, {}
+            for k, tn, py, typed in user:
+                if typed:
+                    labels[k], types_[k] = label_typed(tn, py), LT[tn]
+                else:
+                    labels[k] = label_plain(tn, py)
+            for k, v in w["stamps"]:
+                labels[k] = v
+            for k, t in w["ghost"]:
+                types_[k] = t
+            lt = types_ if w["lt"] == "dict" else None
+            assert lt is not None or not types_, "scenario: typed label without labels_types"
+            if w["via"] == "model":
+                return br.formatter.dumps(TaskiqMessage(task_id=tid, task_name=name, labels=labels, labels_types=lt,
+                                                        args=args, kwargs=kwargs)).message
+            assert w["via"] == "raw", "scenario: unknown via %r" % (w["via"],)
+            d = dict(task_id=tid, task_name=name, labels=labels, labels_types=lt, args=args, kwargs=kwargs)
+            if w["lt"] == "omit":
+                del d["labels_types"]
+            d.update(w.get("top") or {})
+            tx = w.get("text") or {}
+            keys = list(d)
+            random.Random(tx.get("order", 0)).shuffle(keys)
+            d = {k: d[k] for k in keys}
+            if fmt == "proxy-pickle":
+                return pickle.dumps(d, protocol=tx.get("proto", 4))
+            return json.dumps(d, ensure_ascii=bool(tx.get("ascii", True)),
+                              separators=(",", ":") if tx.get("compact") else (", ", ": ")).encode("utf-8")
+
         msgs = []
+        shown = {}
+        for i, m in enumerate(sc["msgs"]):
+            if m["kind"] != "bad":
+                by_tid.setdefault(m["wire"]["tid"] if m.get("wire") else str(i), []).append(i)
         for i, m in enumerate(sc["msgs"]):
             if m["kind"] == "bad":
                 # a fresh bytes object per message (never the receiver's own QUEUE_DONE object, whatever its value)
@@ -242,11 +492,16 @@ def run_case(sc, opts):
                 assert data is not rmod.QUEUE_DONE and bytes(data) not in ids, "scenario: duplicate payload"
             else:
                 name = "unknown_task" if m["kind"] == "unk" else ("ts" if m.get("style") == "sync" else "ta")
-                labels = {}
-                if m.get("tlabel_us") is not None:
-                    labels["timeout"] = m["tlabel_us"] / 1e6
-                data = br.formatter.dumps(TaskiqMessage(task_id=str(i), task_name=name, labels=labels,
-                                                        args=[i, m["dur"], m["out"]], kwargs={})).message
+                if m.get("wire"):
+                    data = await on_the_wire(i, m, name, m["wire"])
+                    shown[str(i)] = repr(bytes(data))[:600]
+                else:
+                    labels = {}
+                    if m.get("tlabel_us") is not None:
+                        labels["timeout"] = m["tlabel_us"] / 1e6
+                    data = br.formatter.dumps(TaskiqMessage(task_id=str(i), task_name=name, labels=labels,
+                                                            args=[i, m["dur"], m["out"]], kwargs={})).message
+                assert bytes(data) not in ids, "scenario: two messages with the same bytes"
             ids[bytes(data)] = i
             ack = m.get("ack", "none")
             # `ack` is logged when the ack callable is invoked, `ack.end` when the acknowledgement has COMPLETED
@@ -270,6 +525,7 @@ def run_case(sc, opts):
                 wire = data
             msgs.append(dict(i=i, at=m["at"], wire=wire))
         box["msgs"] = msgs
+        box["shown"] = shown
 
         A = sc["A"]
         if sc.get("cli") is not None:
@@ -309,4 +565,4 @@ def run_case(sc, opts):
     raw = log.ev[:box["n"]]
     lts, cut = shims.to_lts(raw, A is not None and A > 0)
     tags = [e[1] for e in raw]
-    return dict(raw=raw, lts=lts, cut=cut, returned="RETURN" in tags)
+    return dict(raw=raw, lts=lts, cut=cut, returned="RETURN" in tags, wire=box.get("shown") or {})
